@@ -87,6 +87,20 @@ pub proof fn use_algebra<C: Ciphersuite>()
     GG::<C>::ax_eops();
 }
 
+pub proof fn use_id_order<C: Ciphersuite>()
+    ensures
+        vstd::laws_cmp::obeys_cmp::<Identifier<C>>(),
+        vstd::std_specs::btree::key_obeys_cmp_spec::<Identifier<C>>(),
+{
+    ax_identifier_ord::<C>();
+}
+
+// T7 (assumed): `Ord for Identifier` is a total order consistent with `==`
+pub uninterp spec fn spec_id_cmp<C: Ciphersuite>(a: Identifier<C>, b: Identifier<C>) -> core::cmp::Ordering;
+pub axiom fn ax_identifier_ord<C: Ciphersuite>()
+    ensures vstd::laws_cmp::obeys_cmp::<Identifier<C>>();
+
+
 // ---------------------------------------------------------------------------------------------------
 // identifiers as scalars
 pub open spec fn id_scalar<C: Ciphersuite>(i: Identifier<C>) -> Scalar<C> { i.0.0 }
@@ -154,6 +168,85 @@ pub proof fn lemma_draws_len<C: Ciphersuite>(stream: spec_fn(nat) -> u8, pos: na
 { if k > 0 { lemma_draws_len::<C>(stream, pos + FF::<C>::rand_used(stream, pos), (k - 1) as nat); } }
 
 pub open spec fn default_header<C: Ciphersuite>() -> Header<C> { Header { version: 0, ciphersuite: (), phantom: core::marker::PhantomData } }
+
+
+// a dealer share for identifier `id` of the polynomial with coefficient vector `a` (constant term first)
+pub open spec fn spec_is_share<C: Ciphersuite>(sh: crate::keys::SecretShare<C>, id: Identifier<C>, a: Seq<Scalar<C>>) -> bool {
+    sh.header == default_header::<C>() && sh.identifier == id
+    && sh.signing_share.0.0 == poly::<AL<C>>(a, id.0.0)
+    && sh.commitment.0@ == spec_commitment::<C>(a)
+}
+
+// RFC 9591 appendix C.2 vss_verify + derive_group_info for one participant, as a total function
+pub open spec fn spec_share_ok<C: Ciphersuite>(sh: crate::keys::SecretShare<C>) -> Result<(), Error<C>> {
+    if gmul::<C>(sh.signing_share.0.0) != spec_vss::<C>(comm_vals::<C>(sh.commitment.0@), sh.identifier.0.0, s1::<C>()) {
+        Err(Error::InvalidSecretShare { culprit: None })
+    } else if sh.commitment.0@.len() == 0 { Err(Error::MissingCommitment) } else { Ok(()) }
+}
+
+
+pub open spec fn spec_key_package_try_from<C: Ciphersuite>(sh: crate::keys::SecretShare<C>) -> Result<crate::keys::KeyPackage<C>, Error<C>> {
+    match spec_share_ok::<C>(sh) {
+        Err(e) => Err(e),
+        Ok(_) => Ok(crate::keys::KeyPackage::<C> {
+            header: default_header::<C>(), identifier: sh.identifier, signing_share: sh.signing_share,
+            verifying_share: crate::keys::VerifyingShare(crate::serialization::SerializableElement(gmul::<C>(sh.signing_share.0.0))),
+            verifying_key: VerifyingKey { element: crate::serialization::SerializableElement(sh.commitment.0@[0].0.0) },
+            min_signers: sh.commitment.0@.len() as u16 }),
+    }
+}
+
+
+pub open spec fn spec_default_ids<C: Ciphersuite>(max_signers: u16) -> Seq<Identifier<C>>
+{ Seq::new(max_signers as nat, |k: int| Identifier::<C>(crate::serialization::SerializableScalar(nat_scalar::<C>((k + 1) as nat)))) }
+
+pub open spec fn spec_id_list<C: Ciphersuite>(l: crate::keys::IdentifierList<C>, max_signers: u16) -> Seq<Identifier<C>>
+{ match l { crate::keys::IdentifierList::Default => spec_default_ids::<C>(max_signers), crate::keys::IdentifierList::Custom(s) => s@ } }
+
+// the two maps `split` builds, for the identifiers seen so far
+pub open spec fn spec_dealer_maps<C: Ciphersuite>(shares: Map<Identifier<C>, crate::keys::SecretShare<C>>,
+        vshares: Map<Identifier<C>, crate::keys::VerifyingShare<C>>, ids: Seq<Identifier<C>>, a: Seq<Scalar<C>>) -> bool {
+    shares.dom() == ids.to_set() && vshares.dom() == ids.to_set()
+    && forall|id: Identifier<C>| #[trigger] ids.contains(id) ==> spec_is_share::<C>(shares[id], id, a)
+           && vshares[id] == crate::keys::VerifyingShare::<C>(crate::serialization::SerializableElement(gmul::<C>(poly::<AL<C>>(a, id.0.0))))
+}
+
+// C06: what the dealer hands out for identifier list `ids`, polynomial `a` (a[0] = the key), threshold t
+pub open spec fn spec_dealer_output<C: Ciphersuite>(shares: Map<Identifier<C>, crate::keys::SecretShare<C>>, pk: crate::keys::PublicKeyPackage<C>,
+        ids: Seq<Identifier<C>>, a: Seq<Scalar<C>>, t: u16) -> bool {
+    spec_dealer_maps::<C>(shares, pk.verifying_shares@, ids, a)
+    && pk.header == default_header::<C>()
+    && pk.verifying_key == (VerifyingKey::<C> { element: crate::serialization::SerializableElement(gmul::<C>(a[0])) })
+    && pk.min_signers == Some(t)
+}
+
+pub proof fn lemma_dealer_maps_step<C: Ciphersuite>(shares: Map<Identifier<C>, crate::keys::SecretShare<C>>,
+        vshares: Map<Identifier<C>, crate::keys::VerifyingShare<C>>, ids: Seq<Identifier<C>>, a: Seq<Scalar<C>>, sh: crate::keys::SecretShare<C>)
+    requires spec_dealer_maps::<C>(shares, vshares, ids, a), spec_is_share::<C>(sh, sh.identifier, a)
+    ensures spec_dealer_maps::<C>(shares.insert(sh.identifier, sh),
+                vshares.insert(sh.identifier, crate::keys::VerifyingShare::<C>(crate::serialization::SerializableElement(gmul::<C>(sh.signing_share.0.0)))),
+                ids.push(sh.identifier), a)
+{
+    let ids2 = ids.push(sh.identifier);
+    assert(ids2.to_set() =~= ids.to_set().insert(sh.identifier)) by {
+        assert forall|x: Identifier<C>| ids2.to_set().contains(x) <==> ids.to_set().insert(sh.identifier).contains(x) by {
+            if ids2.contains(x) { let w = choose|w: int| 0 <= w < ids2.len() && ids2[w] == x; if w < ids.len() { assert(ids[w] == x); } }
+            if ids.contains(x) { let w = choose|w: int| 0 <= w < ids.len() && ids[w] == x; assert(ids2[w] == x); }
+            if x == sh.identifier { assert(ids2[ids.len() as int] == x); }
+        }
+    }
+    assert forall|id: Identifier<C>| #[trigger] ids2.contains(id) implies
+        spec_is_share::<C>(shares.insert(sh.identifier, sh)[id], id, a)
+        && vshares.insert(sh.identifier, crate::keys::VerifyingShare::<C>(crate::serialization::SerializableElement(gmul::<C>(sh.signing_share.0.0))))[id]
+            == crate::keys::VerifyingShare::<C>(crate::serialization::SerializableElement(gmul::<C>(poly::<AL<C>>(a, id.0.0)))) by {
+        if id != sh.identifier {
+            let w = choose|w: int| 0 <= w < ids2.len() && ids2[w] == id;
+            assert(w < ids.len());
+            assert(ids[w] == id);
+            assert(ids.contains(id));
+        }
+    }
+}
 
 } // verus!
 }
